@@ -124,6 +124,10 @@ def gen_jobs(prop, tier, seed):
             for m in w["methods"]:
                 if m["body"] == "leaf" and rng.random() < 0.7:
                     m["body"] = "next"
+            if q % 4 == 1:
+                # methods produced by one def in a factory: they share a code object
+                for m in w["methods"]:
+                    m["factory"] = True
             if q % 3 == 0 and not any(m["kwn"] for m in w["methods"]):
                 # call_next with *other* arguments (other classes, possibly another arity): the continuation
                 # for a type tuple the method was not entered with
